@@ -14,6 +14,7 @@ pub mod c11;
 pub mod c12;
 pub mod c13;
 pub mod c14;
+pub mod c15;
 pub mod c16;
 pub mod c17;
 pub mod c18;
@@ -23,5 +24,5 @@ pub mod c20;
 use crate::engine::{DynProp, Wrap};
 
 pub fn all() -> Vec<Box<dyn DynProp>> {
-    vec![Box::new(Wrap(c01::C01)), Box::new(Wrap(c02::C02)), Box::new(Wrap(c03::C03)), Box::new(Wrap(c04::C04)), Box::new(Wrap(c05::C05)), Box::new(Wrap(c06::C06)), Box::new(Wrap(c07::C07)), Box::new(Wrap(c08::C08)), Box::new(Wrap(c09::C09)), Box::new(Wrap(c10::C10)), Box::new(Wrap(c11::C11)), Box::new(Wrap(c12::C12)), Box::new(Wrap(c13::C13)), Box::new(Wrap(c14::C14)), Box::new(Wrap(c16::C16)), Box::new(Wrap(c17::C17)), Box::new(Wrap(c18::C18)), Box::new(Wrap(c19::C19)), Box::new(Wrap(c20::C20))]
+    vec![Box::new(Wrap(c01::C01)), Box::new(Wrap(c02::C02)), Box::new(Wrap(c03::C03)), Box::new(Wrap(c04::C04)), Box::new(Wrap(c05::C05)), Box::new(Wrap(c06::C06)), Box::new(Wrap(c07::C07)), Box::new(Wrap(c08::C08)), Box::new(Wrap(c09::C09)), Box::new(Wrap(c10::C10)), Box::new(Wrap(c11::C11)), Box::new(Wrap(c12::C12)), Box::new(Wrap(c13::C13)), Box::new(Wrap(c14::C14)), Box::new(Wrap(c15::C15)), Box::new(Wrap(c16::C16)), Box::new(Wrap(c17::C17)), Box::new(Wrap(c18::C18)), Box::new(Wrap(c19::C19)), Box::new(Wrap(c20::C20))]
 }
